@@ -431,7 +431,7 @@ class RShift(Contract):
             out.append(("features-untouched-when-i=0", tm.eq(i, 0)))
             return out
         if not (isinstance(feats1, VRepList) and getattr(feats1, "alts", None) and feats1.source is feats0):
-            out.append(("features-are-pointwise-images", tm.FALSE))
+            out.append(("features-are-pointwise-images", None))
             return out
         out.append(("one-image-per-feature", tm.eq(feats1.length, feats0.length)))
         loc0 = pre.get(f, "location")
@@ -439,7 +439,7 @@ class RShift(Contract):
             hyp = tm.and_(*conds)
 
             def cl(label, t):
-                out.append(("feature[%d]:%s" % (j, label), tm.implies(hyp, t)))
+                out.append(("feature[%d]:%s" % (j, label), tm.implies(hyp, t) if t is not None else None))
 
             for fld in ("type", "id", "qualifiers"):
                 x, y = pre.get(f, fld), s1.get(f1, fld)
@@ -466,7 +466,7 @@ class RShift(Contract):
                 p1, np1 = parts1.rep, parts1.length
             cl("same-number-of-parts", tm.eq(np1, pre.get(loc0, "parts").length))
             if p1 is None:
-                cl("parts-are-pointwise-images", tm.FALSE)
+                cl("parts-are-pointwise-images", None)
                 continue
             st0, en0 = pre.get(p0, "start").t, pre.get(p0, "end").t
             st1, en1 = s1.get(p1, "start").t, s1.get(p1, "end").t
